@@ -50,6 +50,12 @@ def make_records(res, prop, groups, metas, wd, name, variant="asan"):
         for gi in range(len(groups[ci:ci + 300])):
             g = per.get(gi)
             text, ast = metas[ci + gi][:2]
+            if g is not None and g["compile"] is not None:
+                # the compiler's decision as far as the static range checks go (Cond!StaticRangeReject): judged for every condition
+                dtxt = json.dumps(g["compile"].get("diag", ""))
+                if g["ok"] or "range lower bound" in dtxt:
+                    records.append({"kind": "static", "ast": cg.strip_for_tla(ast), "rejected": not g["ok"]})
+                    owners.append((text, "", "rejected by the compiler: " + dtxt[:200] if not g["ok"] else "accepted by the compiler", {}))
             if g is None or not g["ok"]:
                 rejected += 1
                 diag = json.dumps(g["compile"]["diag"])[:300] if g and g["compile"] else "?"
